@@ -983,6 +983,21 @@ P1305_R = [b"\x02" + bytes(15), b"\x01" + bytes(15), b"\xff" * 16, bytes(16), b"
 P1305_S = [bytes(16), b"\xff" * 16, b"\x03" + bytes(15), b"\x05" + bytes(15), bytes(15) + b"\x80"]
 
 
+_Z = "00" * 16
+RFC8439_A3 = [      # (r, s, data, tag)
+    ("02" + "00" * 15, _Z, "ff" * 16, "03" + "00" * 15),
+    ("02" + "00" * 15, "ff" * 16, "02" + "00" * 15, "03" + "00" * 15),
+    ("01" + "00" * 15, _Z, "ff" * 16 + "f0" + "ff" * 15 + "11" + "00" * 15, "05" + "00" * 15),
+    ("01" + "00" * 15, _Z, "ff" * 16 + "fb" + "fe" * 15 + "01" * 16, _Z),
+    ("02" + "00" * 15, _Z, "fd" + "ff" * 15, "fa" + "ff" * 15),
+    ("01" + "00" * 7 + "04" + "00" * 7, _Z,
+     "e33594d7505e43b90000000000000000" "3394d7505e4379cd0100000000000000" + _Z + "01" + "00" * 15,
+     "14" + "00" * 7 + "55" + "00" * 7),
+    ("01" + "00" * 7 + "04" + "00" * 7, _Z,
+     "e33594d7505e43b90000000000000000" "3394d7505e4379cd0100000000000000" + _Z, "13" + "00" * 15),
+]
+
+
 def w_poly1305(spec, ctx, H):
     from ref import ciphers as RC
     from Crypto.Hash import Poly1305
@@ -1025,6 +1040,21 @@ def w_poly1305(spec, ctx, H):
         for r in P1305_R:
             data = P1305_BLOCKS[-1]
             edge_aes(r, rng.choice(P1305_S), data, "rfc8439-A.3-vector-blocks", do_accept=True)
+        # RFC 8439 A.3 vectors #5-#11 (h == p, h == 2^130 + k, carries out of 2^128) driven through Poly1305-AES;
+        # the model must reproduce the RFC tags (oracle self-check) before it judges the library
+        from ref import modes as RM0
+        for r_hex, s_hex, d_hex, t_hex in RFC8439_A3:
+            r, s, data = bytes.fromhex(r_hex), bytes.fromhex(s_hex), bytes.fromhex(d_hex)
+            if RM0.poly1305(r + s, data).hex() != t_hex:
+                ctx.inconclusive_reason("ref.modes.poly1305 does not reproduce an RFC 8439 A.3 vector")
+                continue
+            for _ in range(3):
+                edge_aes(r, s, data, "b''.fromhex('%s')" % d_hex, do_accept=True)
+            ctx.count("poly1305:rfc8439-a3")
+        # h reaches exactly p = 2^130-5 with r = 1: (2^128 + 2^128-5) + 2^128 + 2^128
+        for s in P1305_S:
+            data = b"\xfb" + b"\xff" * 15 + bytes(32)
+            edge_aes(b"\x01" + bytes(15), s, data, "b''.fromhex('%s')" % data.hex(), do_accept=False)
         # nonce omitted: a random nonce of the documented size is created and published in .nonce
         from ref import modes as RM
         for cipher, mod, nl in (("aes", AES, 16), ("chacha20", ChaCha20, 12)):
